@@ -2,5 +2,350 @@
 
 package main
 
-func dispatchOp(f []string) string     { return "bad-op" }
-func sortedMergeOp(f []string) string { return "bad-op" }
+import (
+	"context"
+	"fmt"
+	"strconv"
+	"strings"
+	"time"
+
+	"google.golang.org/protobuf/types/known/timestamppb"
+
+	commonv1 "github.com/apache/skywalking-banyandb/api/proto/banyandb/common/v1"
+	databasev1 "github.com/apache/skywalking-banyandb/api/proto/banyandb/database/v1"
+	measurev1 "github.com/apache/skywalking-banyandb/api/proto/banyandb/measure/v1"
+	modelv1 "github.com/apache/skywalking-banyandb/api/proto/banyandb/model/v1"
+	itersort "github.com/apache/skywalking-banyandb/pkg/iter/sort"
+	lmeasure "github.com/apache/skywalking-banyandb/pkg/query/logical/measure"
+	"github.com/apache/skywalking-banyandb/pkg/query/model"
+	vmeasure "github.com/apache/skywalking-banyandb/pkg/query/vectorized/measure"
+	vecplan "github.com/apache/skywalking-banyandb/pkg/query/vectorized/measure/plan"
+	"github.com/apache/skywalking-banyandb/pkg/query/vectorized"
+	vstream "github.com/apache/skywalking-banyandb/pkg/query/vectorized/stream"
+	vtrace "github.com/apache/skywalking-banyandb/pkg/query/vectorized/trace"
+)
+
+// dispatch E<0|1> S=<fam>:<tag.t>,..;<fam>:.. F=<field.t>,.. R=<rule>:<tag>:<nosort 0|1>,..|- EN=<tag>,..
+//          tp=<fam>:<t>,<t>;..|-  fp=<f>,..|-  ob=<rule>|@time|-  gb=<fam>:<t>,..;..|@empty|-  agg=<FN>:<field>|-  top=<n>:<field>|-
+// output: fallthrough | accept | reject <class>
+//
+// plan.Dispatch is run with an execution context whose storage answers with an empty (non-nil) result, so the
+// whole decision chain (projection check, order_by, Analyze, Execute/Build) runs and the outcome depends on the
+// request shape and schema only.
+
+type emptyResult struct{}
+
+func (emptyResult) Pull() *model.MeasureResult { return nil }
+func (emptyResult) Release()                   {}
+
+type emptyEC struct{}
+
+func (emptyEC) Query(context.Context, model.MeasureQueryOptions) (model.MeasureQueryResult, error) {
+	return emptyResult{}, nil
+}
+
+func parseFamilies(s string) []rqTP {
+	var out []rqTP
+	if s == "" {
+		return out
+	}
+	for _, f := range strings.Split(s, ";") {
+		name, tags, _ := strings.Cut(f, ":")
+		g := rqTP{F: name}
+		if tags != "" {
+			g.Tags = strings.Split(tags, ",")
+		}
+		out = append(out, g)
+	}
+	return out
+}
+
+func rejectClass(msg string) string {
+	switch {
+	case strings.Contains(msg, "missing runtime context"):
+		return "ctx"
+	case strings.Contains(msg, "tag is not defined"):
+		return "tag:" + strings.TrimSuffix(msg, ": tag is not defined")
+	case strings.Contains(msg, "not found in schema"):
+		return "field:" + strings.TrimSuffix(strings.TrimPrefix(msg, "field "), " not found in schema")
+	case strings.Contains(msg, "parse order_by"):
+		return "order"
+	case strings.Contains(msg, "build query"):
+		return "crit"
+	case strings.Contains(msg, "must list at least one tag family"):
+		return "gb-nofamily"
+	case strings.Contains(msg, "supports a single tag family"):
+		return "gb-multifamily"
+	case strings.Contains(msg, "has no tags"):
+		return "gb-notags"
+	case strings.Contains(msg, "GroupBy tag family"):
+		return "gb-family"
+	case strings.Contains(msg, "GroupBy tag"):
+		return "gb-tag"
+	case strings.Contains(msg, "Agg field"):
+		return "agg-field"
+	case strings.Contains(msg, "UNSPECIFIED"):
+		return "agg-fn"
+	case strings.Contains(msg, "plan.Top.Build: field"):
+		return "top-field"
+	}
+	return "other:" + classify(msg)
+}
+
+func dispatchOp(f []string) string {
+	kv := map[string]string{}
+	enabled := false
+	for _, t := range f[1:] {
+		if t == "E1" {
+			enabled = true
+			continue
+		}
+		if t == "E0" {
+			continue
+		}
+		k, v, ok := strings.Cut(t, "=")
+		if !ok {
+			return "bad-op"
+		}
+		kv[k] = v
+	}
+	ds := dataset{}
+	for _, g := range parseFamilies(kv["S"]) {
+		fam := dsFamily{N: g.F}
+		for _, t := range g.Tags {
+			n, ty, _ := strings.Cut(t, ".")
+			fam.Tags = append(fam.Tags, dsTag{N: n, T: ty})
+		}
+		ds.Families = append(ds.Families, fam)
+	}
+	if kv["F"] != "" && kv["F"] != "-" {
+		for _, t := range strings.Split(kv["F"], ",") {
+			n, ty, _ := strings.Cut(t, ".")
+			ds.Fields = append(ds.Fields, dsField{N: n, T: ty})
+		}
+	}
+	if kv["R"] != "" && kv["R"] != "-" {
+		for i, r := range strings.Split(kv["R"], ",") {
+			p := strings.Split(r, ":")
+			ds.Rules = append(ds.Rules, dsRule{N: p[0], Tag: p[1], ID: uint32(i + 1), NoSort: p[2] == "1"})
+		}
+	}
+	if kv["EN"] != "" && kv["EN"] != "-" {
+		ds.Entity = strings.Split(kv["EN"], ",")
+	}
+	sch, rules := ds.schema()
+	ls, err := lmeasure.BuildSchema(sch, rules)
+	if err != nil {
+		return "SETUP-ERR " + classify(err.Error())
+	}
+	req := &measurev1.QueryRequest{
+		Groups: []string{groupName}, Name: measureName,
+		TimeRange: &modelv1.TimeRange{Begin: timestamppb.New(time.UnixMilli(1715299200000)), End: timestamppb.New(time.UnixMilli(1715299300000))},
+	}
+	if v := kv["tp"]; v != "-" && v != "" {
+		req.TagProjection = toTagProjection(parseFamilies(v))
+	} else if v == "" {
+		req.TagProjection = &modelv1.TagProjection{}
+	}
+	if v := kv["fp"]; v != "-" {
+		req.FieldProjection = &measurev1.QueryRequest_FieldProjection{}
+		if v != "" {
+			req.FieldProjection.Names = strings.Split(v, ",")
+		}
+	}
+	switch v := kv["ob"]; v {
+	case "-", "":
+	case "@time":
+		req.OrderBy = &modelv1.QueryOrder{Sort: modelv1.Sort_SORT_DESC}
+	default:
+		req.OrderBy = &modelv1.QueryOrder{IndexRuleName: v, Sort: modelv1.Sort_SORT_ASC}
+	}
+	switch v := kv["gb"]; v {
+	case "-", "":
+	case "@empty":
+		req.GroupBy = &measurev1.QueryRequest_GroupBy{TagProjection: &modelv1.TagProjection{}}
+	default:
+		req.GroupBy = &measurev1.QueryRequest_GroupBy{TagProjection: toTagProjection(parseFamilies(v))}
+	}
+	if v := kv["agg"]; v != "-" && v != "" {
+		fn, field, _ := strings.Cut(v, ":")
+		afn, ok := aggFns[fn]
+		if !ok {
+			return "bad-op"
+		}
+		req.Agg = &measurev1.QueryRequest_Aggregation{Function: afn, FieldName: field}
+	}
+	if v := kv["top"]; v != "-" && v != "" {
+		n, field, _ := strings.Cut(v, ":")
+		nn, _ := strconv.Atoi(n)
+		req.Top = &measurev1.QueryRequest_Top{Number: int32(nn), FieldName: field, FieldValueSort: modelv1.Sort_SORT_DESC}
+	}
+	cfg := vmeasure.DefaultConfig()
+	cfg.Enabled = enabled
+	it, _, handled, derr := vecplan.Dispatch(context.Background(), req, &commonv1.Metadata{Name: measureName, Group: groupName},
+		sch, ls, emptyEC{}, cfg, false, false)
+	if derr != nil {
+		if !handled {
+			return "INCONSISTENT error-without-handled " + classify(derr.Error())
+		}
+		return "reject " + rejectClass(derr.Error())
+	}
+	if !handled {
+		if it != nil {
+			return "INCONSISTENT iterator-without-handled"
+		}
+		return "fallthrough"
+	}
+	n := 0
+	for it.Next() {
+		n++
+	}
+	if cerr := it.Close(); cerr != nil {
+		return "accept-close-err " + classify(cerr.Error())
+	}
+	if n != 0 {
+		return fmt.Sprintf("accept-rows %d", n)
+	}
+	return "accept"
+}
+
+var _ = databasev1.TagType_TAG_TYPE_INT
+
+
+// smerge s <asc|desc> <batchSize> <maxRows> <k|t> <batch>|<batch>...   stream.SortedMerge (k: order-key schema, t: time order)
+//          batch = - | ts:elem[:keyhex],...        output: ts:elem[:keyhex],...  (emission order)
+// smerge t <asc|desc> <batchSize> <iter>|<iter>...                      trace.SortedMerge over sorted iterators
+//          iter  = - | key:series:part:payloadhex,...   output: key:series:part:payloadhex,...
+
+type sliceIter struct {
+	items []*vtrace.MergeItem
+	pos   int
+}
+
+func (s *sliceIter) Next() bool {
+	if s.pos >= len(s.items) {
+		return false
+	}
+	s.pos++
+	return true
+}
+func (s *sliceIter) Val() *vtrace.MergeItem { return s.items[s.pos-1] }
+func (s *sliceIter) Close() error           { return nil }
+
+func sortedMergeOp(f []string) string {
+	if len(f) < 5 {
+		return "bad-op"
+	}
+	desc := f[2] == "desc"
+	bs, _ := strconv.Atoi(f[3])
+	ctx := context.Background()
+	if f[1] == "t" {
+		var iters []itersort.Iterator[*vtrace.MergeItem]
+		for _, it := range strings.Split(f[4], "|") {
+			si := &sliceIter{}
+			if it != "-" {
+				for _, r := range strings.Split(it, ",") {
+					p := strings.Split(r, ":")
+					k, _ := strconv.ParseInt(p[0], 10, 64)
+					sid, _ := strconv.ParseInt(p[1], 10, 64)
+					pid, _ := strconv.ParseInt(p[2], 10, 64)
+					si.items = append(si.items, vtrace.NewMergeItem(k, sid, pid, rawHex(p[3])))
+				}
+			}
+			iters = append(iters, si)
+		}
+		op := vtrace.NewSortedMerge(iters, desc, bs)
+		if err := op.Init(ctx); err != nil {
+			return "ERR init"
+		}
+		var out []string
+		for {
+			b, err := op.NextBatch(ctx)
+			if err != nil {
+				return "ERR next " + classify(err.Error())
+			}
+			if b == nil {
+				break
+			}
+			keys := b.Columns[0].(*vectorized.TypedColumn[int64]).Data()
+			sids := b.Columns[1].(*vectorized.TypedColumn[int64]).Data()
+			pids := b.Columns[2].(*vectorized.TypedColumn[int64]).Data()
+			pl := b.Columns[3].(*vectorized.TypedColumn[[]byte]).Data()
+			if b.Len > bs && bs > 0 {
+				return "ERR batch larger than batchSize"
+			}
+			for i := 0; i < b.Len; i++ {
+				out = append(out, fmt.Sprintf("%d:%d:%d:%x", keys[i], sids[i], pids[i], pl[i]))
+			}
+		}
+		_ = op.Close()
+		if len(out) == 0 {
+			return "-"
+		}
+		return strings.Join(out, ",")
+	}
+	if f[1] != "s" || len(f) != 7 {
+		return "bad-op"
+	}
+	maxRows, _ := strconv.Atoi(f[4])
+	var schema *vectorized.BatchSchema
+	if f[5] == "k" {
+		schema = vstream.BuildStreamBatchSchema(nil, "fam", "tag")
+	} else {
+		schema = vstream.BuildStreamBatchSchema(nil, "", "")
+	}
+	op := vstream.NewSortedMergeWithCap(schema, desc, bs, maxRows)
+	if err := op.Init(ctx); err != nil {
+		return "ERR init"
+	}
+	for _, bt := range strings.Split(f[6], "|") {
+		b := vectorized.NewRecordBatch(schema, 4)
+		if bt != "-" {
+			for _, r := range strings.Split(bt, ",") {
+				p := strings.Split(r, ":")
+				ts, _ := strconv.ParseInt(p[0], 10, 64)
+				el, _ := strconv.ParseInt(p[1], 10, 64)
+				b.Columns[0].(*vectorized.TypedColumn[int64]).Append(ts)
+				b.Columns[1].(*vectorized.TypedColumn[int64]).Append(el)
+				b.Columns[2].(*vectorized.TypedColumn[int64]).Append(0)
+				if f[5] == "k" {
+					b.Columns[3].(*vectorized.TypedColumn[[]byte]).Append(rawHex(p[2]))
+				}
+				b.Len++
+			}
+		}
+		if err := op.Consume(ctx, b); err != nil {
+			return "ERR consume " + classify(err.Error())
+		}
+	}
+	if err := op.Finalize(ctx); err != nil {
+		return "ERR finalize"
+	}
+	var out []string
+	for {
+		b, err := op.NextBatch(ctx)
+		if err != nil {
+			return "ERR next " + classify(err.Error())
+		}
+		if b == nil {
+			break
+		}
+		if bs > 0 && b.Len > bs {
+			return "ERR batch larger than batchSize"
+		}
+		tss := b.Columns[0].(*vectorized.TypedColumn[int64]).Data()
+		els := b.Columns[1].(*vectorized.TypedColumn[int64]).Data()
+		for i := 0; i < b.Len; i++ {
+			if f[5] == "k" {
+				out = append(out, fmt.Sprintf("%d:%d:%x", tss[i], els[i], b.Columns[3].(*vectorized.TypedColumn[[]byte]).Data()[i]))
+			} else {
+				out = append(out, fmt.Sprintf("%d:%d", tss[i], els[i]))
+			}
+		}
+	}
+	_ = op.Close()
+	if len(out) == 0 {
+		return "-"
+	}
+	return strings.Join(out, ",")
+}
